@@ -1172,7 +1172,9 @@ class Emitter:
         if a.t.k == 'ptr':
             if pred in ('eq', 'ne'):
                 return '((_Bool)(%s %s %s))' % (A, sym, B)
-            return '((_Bool)((u64)%s %s (u64)%s))' % (A, sym, B) if pred[0] == 'u' else '((_Bool)((i64)(u64)%s %s (i64)(u64)%s))' % (A, sym, B)
+            # relational comparison of pointers: kept as a pointer comparison (same object in the source), which the
+            # checker can decide from offsets; a detour through integers makes every such loop condition symbolic
+            return '((_Bool)__PCMP(%s, %s, %s))' % (A, sym, B)
         if pred[0] == 's':
             return '((_Bool)(%s %s %s))' % (self.sx(A, a.t.a), sym, self.sx(B, a.t.a))
         return '((_Bool)(%s %s %s))' % (A, sym, B)
@@ -1648,11 +1650,39 @@ class FuncEmitter:
                 if i.op == 'phi':
                     self.phis.setdefault(L0, []).append(i)
         self.allocas = []
+        # loops with several back-edges get one latch: CBMC treats every backward goto as a loop of its own and does
+        # not merge paths across backward gotos, so k back-edges to one header explode as k^iterations
+        pos = {L0: n for n, L0 in enumerate(labels)}
+        self.pos = pos
+        backs = {}
+        for (lab, ins), L0 in zip(blocks, labels):
+            t = ins[-1]
+            succ = []
+            if t.op == 'br':
+                succ = [t.a[0]]
+            elif t.op == 'condbr':
+                succ = [t.a[1], t.a[2]]
+            elif t.op == 'switch':
+                succ = [t.a[1]] + [l for _, l in t.a[2]]
+            elif t.op == 'invoke':
+                succ = [t.a['normal'], t.a['unwind']]
+            for sx in succ:
+                if sx in pos and pos[sx] <= pos[L0]:
+                    backs.setdefault(sx, []).append(L0)
+        self.latch_for = {}
+        latch_after = {}
+        for h, srcs in backs.items():
+            if len(srcs) + sum(1 for x in srcs if False) >= 2 or len(set(srcs)) != len(srcs):
+                self.latch_for[h] = 'LATCH_' + cid(h)
+                last = max(srcs, key=lambda x: pos[x])
+                latch_after.setdefault(last, []).append(h)
         for (lab, ins), L0 in zip(blocks, labels):
             body.append('%s: ;' % self.lab(L0))
             self.cur = L0
             for i in ins:
                 self.instr(i)
+            for h in latch_after.get(L0, []):
+                body.append('%s: goto %s;' % (self.latch_for[h], self.lab(h)))
         for nm, t in self.types.items():
             if nm in params:
                 continue
@@ -1713,8 +1743,11 @@ class FuncEmitter:
     def goto(self, target):
         """code for an edge cur -> target incl. phi copies"""
         phis = self.phis.get(target)
+        dest = self.lab(target)
+        if target in getattr(self, 'latch_for', {}) and self.pos[target] <= self.pos[self.cur]:
+            dest = self.latch_for[target]
         if not phis:
-            return 'goto %s;' % self.lab(target)
+            return 'goto %s;' % dest
         parts = []
         tmps = []
         for n, i in enumerate(phis):
@@ -1731,7 +1764,7 @@ class FuncEmitter:
             tn = '__phi%d' % self.tmpc
             parts.append('%s %s = %s;' % (self.em.ct(i.t), tn, self.em.val(val, self)))
             tmps.append('%s = %s;' % (self.lv(i.res), tn))
-        return '{ %s %s goto %s; }' % (' '.join(parts), ' '.join(tmps), self.lab(target))
+        return '{ %s %s goto %s; }' % (' '.join(parts), ' '.join(tmps), dest)
 
     def ubassert(self, conds, what):
         if self.em.opts.ub:
@@ -1864,8 +1897,12 @@ class FuncEmitter:
             name = base.d
             if name.startswith('llvm.'):
                 self.intrinsic(i, name, args, res)
+                if i.op == 'invoke':
+                    B.append(self.goto(i.a['normal']))
                 return
             if self.special_call(i, name, args, res):
+                if i.op == 'invoke' and name not in ('__cxa_throw', '__cxa_rethrow'):
+                    B.append(self.goto(i.a['normal']))
                 return
             tname = em.redirect.get(name, name)
             if name in em.redirect_self and self.f.name == name:
